@@ -1073,6 +1073,9 @@ class Executor:
             return Const(np)
         segs = p.split("::")
         if len(segs) >= 2 and segs[-2] in self.prog.enums:
+            for v_ in self.prog.enums[segs[-2]]["variants"]:
+                if v_["name"] == segs[-1] and v_["fields"] and v_["fields"][0]["name"].isdigit():
+                    return FnRef(p, e.get("generics"))      # tuple-variant constructor used as a function value
             return Variant(segs[-2] + "::" + segs[-1])
         if segs[-1] == NONE and (len(segs) == 1 or segs[-2] == "Option"):
             return none()
